@@ -87,7 +87,11 @@ MALFORMED = ["<info>a", "a</info>", "<b><u>x</b></u>", "</b>x<info>y</b>", "<fg=
 
 W_TEXTS = [("a", "a"), ("", ""), ("a\nb", "a\nb"), ("\n", "\n"), ("a\n\nb", "a\n\nb"), ("t\n", "t\n"), ("t\n\n", "t\n\n"), (" lead", " lead"),
            ("<info>x</info>", "x"), ("<b>l1\nl2</b>", "l1\nl2"), ("<info>", ""), ("p<fg=red>q</>r", "pqr"), ("<foo>z", "<foo>z")]
-W_BAD = ["<b>x</u>", "<fg=nope>y"]
+# texts on which a write raises ValueError.  Both fail before anything is pushed on the style stack: pastel keeps the styles a
+# message opened before its failing tag ('<b>x</u>' leaves bold on the stack for every later message), and the model does not carry
+# formatter state out of a failed call - such texts are outside the compared domain (DESIGN.md C11, Partial).  'x</u>' raises only
+# when a style is open from an earlier message.
+W_BAD = ["x</u>", "<fg=nope>y"]
 
 
 def gen_prog(rng, depth, bad):
